@@ -40,7 +40,7 @@ PROPS = {
     },
     'C08': {
         'props': 'Props/C08.v',
-        'suites': [{'name': 'cfeed', 'oracles': {'cfeed': 'o_feed'}, 'trivial_tags': [], 'vm_sample': 15}, {'name': 'cdecode', 'oracles': {'cdecode': 'o_reqs'}, 'trivial_tags': ['out-wait'], 'vm_sample': 40}],
+        'suites': [{'name': 'cfeed', 'oracles': {'cfeed': 'o_feed'}, 'trivial_tags': [], 'vm_sample': 15}, {'name': 'cdecode', 'oracles': {'cdecode': 'o_reqs'}, 'trivial_tags': ['out-wait'], 'vm_sample': 40}, {'name': 'pressure', 'oracles': {'loopfinal': 'o_loop'}, 'trivial_tags': ['plain'], 'vm_sample': 3, 'sigs': ['request-never-answered-and-connection-left-open', 'reply-does-not-belong-to-the-request-at-its-position', 'more-replies-than-requests', 'stray-bytes-after-the-last-reply', 'backend-received-bytes-that-are-not-requests', 'event-loop-stopped']}],
         'rule': 'cfeed: pipelines of 1-8 generated requests (6% mutated, 15% truncated) cut into one chunk / single bytes / two cuts / random '
                 'chunks, an exhaustive two-cut sweep of a 3-request pipeline, a 200 KB request crossing the 64 KiB read buffer - each run '
                 'through the production path unix.Read -> eventloop.cread -> conn.Peek/Discard -> Decode -> inbound ring buffer on a socketpair; '
@@ -221,6 +221,7 @@ PROPS = {
 # wrong node shows there)
 for _pid in ('C06', 'C07', 'C11', 'C17'):
     PROPS[_pid]['rule'] += ' | loop suite: ' + LOOP_RULE
+PROPS['C08']['rule'] += ' | pressure suite: as C10; includes single reads full of locally answered requests from a client that is not reading (every request of the read must be served although the replies no longer fit the socket)'
 PROPS['C03']['rule'] += ' | replicas suite: as C04 (connections to replicas open with AUTH and READONLY: a two-step handshake whose answers may arrive in separate reads while requests are already in flight)'
 PROPS['C01']['rule'] += ' | pressure suite: as C10 (replies larger than the buffers to clients that read late; locally answered requests behind a backlog)'
 PROPS['C12']['rule'] += ' | loop suite: ' + LOOP_RULE
